@@ -851,7 +851,16 @@ pub fn points_per_packet(p: &[Record]) -> Option<usize> {
     if bits == 0 {
         return None;
     }
-    Some(((65535 - (6 + 2 * p.len()) - p.len() - 500) * 8) / bits)
+    // a prototype too wide for the packet header alone leaves no room at all
+    Some(65535usize.checked_sub(6 + 2 * p.len() + p.len() + 500).map(|room| room * 8 / bits).unwrap_or(0))
+}
+
+/// Is one point of this prototype wider than what the library's packet layout (whole points per
+/// data packet, one u16 length per byte stream) can hold? For such prototypes the statement of
+/// C10 leaves the choice between an error and a faithful file; it never allows a panic or a call
+/// that does not return.
+pub fn proto_too_wide(p: &[Record]) -> bool {
+    65535usize.checked_sub(6 + 2 * p.len() + p.len() + 500).is_none() || points_per_packet(p) == Some(0) || p.len() > 0xFFFF
 }
 
 pub fn gen_point(r: &mut Rng, p: &[Record], nan_ok: bool) -> RawValues {
@@ -1590,7 +1599,7 @@ pub fn run_scene(scene: &Scene, dev: Dev, judge: Judge) -> RunResult {
                         pw
                     }
                     Ok(Err(err)) => {
-                        if conforms.is_ok() {
+                        if conforms.is_ok() && !proto_too_wide(&spec.prototype) {
                             res.violations.push(viol(
                                 pj,
                                 format!("reject/add_pointcloud/{}", err_class(&err)),
